@@ -11,8 +11,10 @@ from props.common import is_derived_body
 
 META = {
     "level": "other",
+    "technique": "static analysis of type-checked MIR (rustc_private driver): dominance of limit resets over event pulls, who-may-reset enumeration, decision-tree extraction of writer/reader name tables, abstract interpretation of the counting reader",
     "explanation": "Limit discipline: every XML event pull in the RRDP parsers is dominated by a reset of the byte counter "
-                   "with a non-zero constant limit and every loop that pulls events resets it per element; the counting "
+                   "with a non-zero constant limit and every loop that pulls events resets it per element; only "
+                   "Reader::reset_and_limit zeroes the counter and never inside an event-skipping loop; the counting "
                    "reader's decision table (fails iff limit > 0 and trip > limit; consume adds saturating; reset zeroes) by "
                    "abstract interpretation; quick-xml is only ever given the counting reader; the attribute/element names "
                    "written by write_xml equal the literal patterns the parsers accept (decision-tree extraction); escaping "
